@@ -20,9 +20,9 @@ def Bucket.refill (BE : Int) (b : Option Bucket) (t : Int) : Int :=
 /-- one request `(t, q)`: new state, admitted?, remaining tokens -/
 def Bucket.step (B E : Int) (b : Option Bucket) (t q : Int) : Option Bucket × Bool × Int :=
   let lvl := Bucket.refill (B * E) b t
-  let admit := decide (q * E ≤ lvl)
-  let lvl' := if admit then lvl - q * E else lvl
-  (some ⟨lvl', t⟩, admit, lvl' / E)
+  let adm := decide (q * E ≤ lvl)
+  let lvl' := if adm then lvl - q * E else lvl
+  (some ⟨lvl', t⟩, adm, lvl' / E)
 
 /-- decisions of a whole single-key history `(t, q)` -/
 def Bucket.run (B E : Int) : Option Bucket → List (Int × Int) → List Bool
